@@ -5,7 +5,9 @@ use std::rc::Rc;
 
 pub fn compile_cmd(args: &[String]) -> i32 {
     let src = std::fs::read_to_string(&args[1]).expect("read");
-    match bladeink_compiler::Compiler::new().compile(&src) {
+    // `inkmon compile file.ink nocount` = compile without count_all_visits
+    let opts = bladeink_compiler::CompilerOptions { count_all_visits: args.get(2).map(|s| s.as_str()) != Some("nocount"), source_filename: None };
+    match bladeink_compiler::Compiler::with_options(opts).compile(&src) {
         Ok(j) => {
             println!("{j}");
             0
